@@ -362,6 +362,23 @@ def run(tier, seed):
                 vandalise(res, rng)
         if h == 0:
             chk.sample({"history": hist[:12]})
+    # new public API of the changed source (if any), used or abused, must not change what the existing entry points do
+    probe_specs = [s_ for s_ in pool if s_[1] in ("auth", "reg") and s_[0].endswith(("/None", "/ok", "/signed-by-other-key", "/fault", "/challenge-other"))][:14]
+    def _probe():
+        out = []
+        for s_ in probe_specs:
+            key_, kind_, pol_, obj_ = s_
+            with impl.substituted(pol_.substitute if kind_ == "reg" else None, pol_.now if kind_ == "reg" else T0):
+                out.append((key_, run_spec(s_)[0]))
+        return out
+    def _inside():
+        import webauthn as _w3
+        for s_ in probe_specs:
+            key_, kind_, pol_, obj_ = s_
+            if key_.endswith(("/signed-by-other-key", "/fault", "/challenge-other")):
+                with impl.substituted(pol_.substitute if kind_ == "reg" else None, pol_.now if kind_ == "reg" else T0):
+                    (_w3.verify_authentication_response if kind_ == "auth" else _w3.verify_registration_response)(credential=obj_.as_dict(), **pol_.kwargs())      # raises: on purpose
+    fw.exercise_new_api(chk, _probe, _inside)
     # long runs: many DISTINCT ceremonies (more than any small cache holds: 300, plus every count the changed source newly mentions), then the first ones again and
     # tampered copies of them; and the same accepted / refused pair repeated that often
     from harness import srcdict
